@@ -688,7 +688,9 @@ var (
 	}
 	editsRequestSet = []string{"r-rename", "r-add-unused", "r-del-unused", "r-edit-unused"}
 	editsConfig     = []string{"c-instance", "c-meta-add", "c-meta-val"}
-	editsInvalid    = []string{"inv-no-address", "inv-missing-request", "inv-dangling-request", "inv-empty-name", "inv-nil-target"}
+	// many entries at once (every A-th request / target)
+	editsBulk    = []string{"bulk-req-edit", "bulk-tgt-edit", "bulk-tgt-del", "bulk-tgt-add"}
+	editsInvalid = []string{"inv-no-address", "inv-missing-request", "inv-dangling-request", "inv-empty-name", "inv-nil-target"}
 )
 
 func hasKey(kvs []KV, k string) bool {
@@ -823,6 +825,9 @@ func applyRich(c *RichConfig, e REdit) string {
 		if !c.Targets[i].Nil {
 			live = append(live, i)
 		}
+	}
+	if strings.HasPrefix(e.Kind, "bulk-") {
+		return applyBulk(c, e, live)
 	}
 	needT := strings.HasPrefix(e.Kind, "t-") || strings.HasPrefix(e.Kind, "inv-")
 	needR := strings.HasPrefix(e.Kind, "r-")
@@ -1192,6 +1197,61 @@ func applyRich(c *RichConfig, e REdit) string {
 	}
 }
 
+// applyBulk changes every stride-th request / target at once.
+func applyBulk(c *RichConfig, e REdit, live []int) string {
+	stride := 1 + mod(e.A, 3)
+	switch e.Kind {
+	case "bulk-req-edit":
+		n := 0
+		for i := range c.Requests {
+			if i%stride != 0 {
+				continue
+			}
+			if b := &c.Requests[i].Body; mod(b.Kind, 3) == 0 {
+				b.UpdatesOnly = !b.UpdatesOnly
+			} else {
+				b.Ext = append(b.Ext, ExtSpec{Kind: 2, Level: 1 + uint32(mod(e.B, 4))})
+			}
+			n++
+		}
+		if n == 0 {
+			return ""
+		}
+	case "bulk-tgt-edit":
+		if len(live) == 0 {
+			return ""
+		}
+		for k, i := range live {
+			if k%stride == 0 {
+				t := &c.Targets[i].T
+				t.Meta = append(dedupe(t.Meta), KV{freshKey(t.Meta, "bulk"+e.S), "1"})
+			}
+		}
+	case "bulk-tgt-del":
+		if len(c.Targets) == 0 {
+			return ""
+		}
+		var keep []NamedTgt
+		for i := range c.Targets {
+			if i%(stride+1) != 0 {
+				keep = append(keep, c.Targets[i])
+			}
+		}
+		c.Targets = keep
+	case "bulk-tgt-add":
+		if len(live) == 0 {
+			return ""
+		}
+		src := c.Targets[live[mod(e.T, len(live))]].T
+		for k, n := 0, 1+mod(e.B*7+e.A, 40); k < n; k++ {
+			c.Targets = append(c.Targets, NamedTgt{Name: c.freshTarget(fmt.Sprintf("bulk%s-%d", e.S, k)), T: src.clone()})
+		}
+	default:
+		return ""
+	}
+	return e.Kind
+}
+
 func subNorm(s SubSpec) SubSpec {
 	s.Path = normPath(s.Path)
 	s.Mode = mod(s.Mode, 3)
@@ -1256,6 +1316,10 @@ type rstats struct {
 	bodyEditWithRepointOrRemove              bool
 	unusualName, nearNames, emptyRequestName bool
 	withBase                                 bool
+	// modelDisagreement: the plain-data notion of "unchanged" and proto.Equal
+	// on the reference messages disagreed (a flaw of this harness, never seen);
+	// the case is not judged from there on.
+	modelDisagreement string
 }
 
 func (s *rstats) nontrivial() bool { return s.bodyEditWithRepointOrRemove || s.rejectedBetweenAccepted }
@@ -1309,6 +1373,7 @@ func (s *rstats) labels() []string {
 	add(s.nearNames, "names-equal-after-folding-or-trimming")
 	add(s.emptyRequestName, "request-named-empty-string")
 	add(s.withBase, "with-base")
+	add(s.modelDisagreement != "", "excluded:model-disagreement")
 	return l
 }
 
@@ -1412,6 +1477,8 @@ func describeRich(c *RichConfig) string {
 	return s
 }
 
+var errNotJudged = fmt.Errorf("not judged")
+
 // runRich executes sc against a fresh target.Config. Apart from the map
 // iteration order inside the code under test it is a pure function of sc.
 func runRich(sc *RichScenario) (st rstats, err error) {
@@ -1443,6 +1510,7 @@ func runRich(sc *RichScenario) (st rstats, err error) {
 		cfg      *target.Config
 		cur      *RichConfig // model: current configuration
 		curSnap  = snapshot(nil)
+		curRef   *pb.Configuration // plain representation of cur
 		replayed = map[string]entry{}
 		fc       = &formCtx{}
 	)
@@ -1469,6 +1537,7 @@ func runRich(sc *RichScenario) (st rstats, err error) {
 		cfg = c
 		cur = sc.Init.clone()
 		curSnap = snapshot(cur)
+		curRef = cur.build()
 		replayed = view(cur.build())
 		fc.prevMsg, fc.prevSnap, fc.prevRev = msg, curSnap, cur.Rev
 		st.measure(cur)
@@ -1497,6 +1566,24 @@ func runRich(sc *RichScenario) (st rstats, err error) {
 			msg, form = spec.build(), "fallback-to-fresh"
 		}
 		st.forms[form] = true
+		if changed && cur != nil {
+			// Cross-check the reference notion of "unchanged" (plain data) with
+			// proto.Equal on the plain representations; if they ever disagree the
+			// case is not judged.
+			for n, oc := range curSnap.req {
+				if nc, ok := ns.req[n]; ok && (oc == nc) != sameRequest(curRef.Request[n], ref.Request[n]) {
+					st.modelDisagreement = fmt.Sprintf("request %q", n)
+				}
+			}
+			for n, oc := range curSnap.tgt {
+				if nc, ok := ns.tgt[n]; ok && (oc == nc) != sameTarget(curRef.Target[n], ref.Target[n]) {
+					st.modelDisagreement = fmt.Sprintf("target %q", n)
+				}
+			}
+			if st.modelDisagreement != "" {
+				return errNotJudged
+			}
+		}
 		if verr := target.Validate(msg); (verr == nil) != valid {
 			return vio("validate-mismatch", "step %d load %d: Validate returned an error: %v; the reference predicate says invalid reasons = %v; configuration %s", p.step, p.rep, verr != nil, reasons, describeRich(spec))
 		}
@@ -1636,7 +1723,7 @@ func runRich(sc *RichScenario) (st rstats, err error) {
 				st.deleteAndAdd = true
 			}
 		}
-		cur, curSnap = spec, ns
+		cur, curSnap, curRef = spec, ns, ref
 		fc.prevMsg, fc.prevSnap, fc.prevRev = msg, ns, spec.Rev
 		if changed {
 			st.measure(cur)
@@ -1649,6 +1736,9 @@ func runRich(sc *RichScenario) (st rstats, err error) {
 	}
 	for _, p := range queue {
 		if err := load(p); err != nil {
+			if err == errNotJudged {
+				err = nil
+			}
 			return st, err
 		}
 	}
@@ -1676,6 +1766,9 @@ func runRich(sc *RichScenario) (st rstats, err error) {
 				spec = &cp
 			}
 			if err := load(pending{spec: spec, reload: rl, edits: applied, step: si, rep: ri}); err != nil {
+				if err == errNotJudged {
+					err = nil
+				}
 				return st, err
 			}
 		}
